@@ -51,8 +51,11 @@ pub fn run(r: &mut Report) {
         for t in &ts {
             let preds = vec![json!({"byproducts": {"return-value": 0, "stderr": t, "stdout": t}, "command": [t], "env": {t.as_str(): t}, "materials": {format!("m{}", t): {"sha256": "00"}}, "name": t}),
                              json!({"builder": {"id": t}, "materials": [{"uri": t, "digest": {"sha256": "00"}}]}),
-                             json!({"builder": {"id": t}, "buildType": t, "materials": []})];
-            let ptypes = ["https://in-toto.io/Link/v0.2", "https://slsa.dev/provenance/v0.1", "https://slsa.dev/provenance/v0.2"];
+                             json!({"builder": {"id": t}, "buildType": t, "materials": []}),
+                             // several list members in descending / mixed order, and members without the optional field: order is content
+                             json!({"builder": {"id": t}, "materials": [{"uri": "z", "digest": {"sha256": "00"}}, {"uri": "a", "digest": {"sha512": "11", "sha256": "00"}}, {"digest": {"sha256": "22"}}, {"uri": t}]}),
+                             json!({"builder": {"id": t}, "buildType": t, "materials": [{"uri": "z"}, {"uri": "a", "digest": {"sha256": "00"}}, {"digest": {"sha256": "22"}}, {"uri": "m"}]})];
+            let ptypes = ["https://in-toto.io/Link/v0.2", "https://slsa.dev/provenance/v0.1", "https://slsa.dev/provenance/v0.2", "https://slsa.dev/provenance/v0.1", "https://slsa.dev/provenance/v0.2"];
             for (i, pd) in preds.iter().enumerate() {
                 n += 1;
                 let parsed: Result<PredicateWrapper, _> = serde_json::from_str(&pd.to_string());
